@@ -4,13 +4,16 @@
 -/
 import Stef.Driver.Core
 import Stef.Driver.Bits
+import Stef.Driver.Chunk
 
 open Stef.Driver
 
 def mkHandlers : IO (List (List String × Handler)) := do
   let bits ← mkHandler ({} : Bits.St) Bits.step
+  let chunk ← mkHandler ({} : Chunk.St) Chunk.step
   pure [
-    (["bw", "br"], bits)
+    (["bw", "br"], bits),
+    (["ca", "cw"], chunk)
   ]
 
 partial def loop (h out : IO.FS.Stream) (hs : List (List String × Handler)) : IO Unit := do
